@@ -1,8 +1,544 @@
 import Grass.Proto
-/- Core `Import` — stub; replaced by the model (see DESIGN.md §8). -/
+/-
+  C13 core — how `@import` / `@use` / `@forward` URLs are turned into file-system probes.
+
+  Mirrors crates/compiler/src/evaluate/visitor.rs
+      `add_extension`      (line 53)
+      `find_import`        (line 809–877:  `try_path!` 819, explicit-extension branch 837–846,
+                            `try_path_with_extensions!` 848–858, relative location 860–864,
+                            load paths 866–874)
+      `parse_file`         (line 879)  → options.rs `InputSyntax::for_path` (line 202)
+      `import_like_node`   (line 892)  (find_import, then exactly one `fs.read` of the result,
+                            else "Can't find stylesheet to import.")
+      callers: `visit_dynamic_import_rule` (941, for_import = true), `load_module` (700,
+               for_import = false; used by `visit_use_rule` 723 and `visit_forward_rule` 268)
+  and utils/mod.rs `is_plain_css_import` (line 9), parse/stylesheet.rs `parse_import_argument`
+  (line 863).
+
+  Paths are `/`-separated component lists (`Path = List (List Char)`); the component-list
+  operations used here agree with `std::path` (`parent`, `file_name`, `join`, `extension`,
+  `with_extension`) on the URLs the driver accepts (`urlOk`: relative, no empty / `.` component,
+  last component not `..`).  `Fs::canonicalize` (identity for a custom Fs by default) is not
+  modelled; it is not an existence test or a read.
+
+  As-found switches (one per known defect, DESIGN §3/§6); `AsFound.spec` = all off = the
+  documented behaviour, `AsFound.current` = the code as it stands:
+    d9   `find_import` ignores `for_import`: `@use`/`@forward` also probe the `.import` variants
+    d10  a URL with an explicit .scss/.sass/.css extension is only looked up relative to the
+         importing file (visitor.rs:844 `// todo: consider load paths`)
+    d8b  the import-only variant of an explicit-extension URL is built with
+         `with_extension(".import<ext>")` (visitor.rs:842), i.e. `q.scss` ↦ `q..importscss`
+         instead of `q.import.scss`
+    d8   (fixed in 9b563f8) `with_extension` *replaced* the last dotted part of the basename
+-/
 namespace Grass.Import
 
+abbrev Comp := List Char
+abbrev Path := List Comp
+
+/-- The file-system object of `Options` as far as the search sees it. -/
+structure Fs where
+  isFile : Path → Bool
+  isDir  : Path → Bool
+
+inductive Probe where
+  | isFile (p : Path)
+  | isDir  (p : Path)
+  deriving DecidableEq, Repr, Inhabited
+
+def Probe.path : Probe → Path
+  | .isFile p => p
+  | .isDir p => p
+
+structure AsFound where
+  d9  : Bool
+  d10 : Bool
+  d8b : Bool
+  d8  : Bool
+  deriving DecidableEq, Repr, Inhabited
+
+def AsFound.spec : AsFound := ⟨false, false, false, false⟩
+def AsFound.current : AsFound := ⟨true, true, true, false⟩
+
+inductive Syntax where
+  | scss | sass | css
+  deriving DecidableEq, Repr, Inhabited
+
+/-! ### names -/
+
+def sassExt : Comp := ['s', 'a', 's', 's']
+def scssExt : Comp := ['s', 'c', 's', 's']
+def cssExt  : Comp := ['c', 's', 's']
+def importWord : Comp := ['i', 'm', 'p', 'o', 'r', 't']
+def indexName : Comp := ['i', 'n', 'd', 'e', 'x']
+
+/-- Split at the last `.`: `"a.b.c" ↦ ("a.b", "c")`; `none` when there is no dot. -/
+def splitLastDot : List Char → Option (List Char × List Char)
+  | [] => none
+  | c :: cs =>
+    match splitLastDot cs with
+    | some (s, e) => some (c :: s, e)
+    | none => if c = '.' then some ([], cs) else none
+
+/-- `Path::extension` on a file name: the part after the last dot, unless the only dot is the
+    first character (`.scss` has no extension). Returns `(stem, ext)`. -/
+def stemExt (name : Comp) : Option (Comp × Comp) :=
+  match splitLastDot name with
+  | some (s, e) => if s.isEmpty then none else some (s, e)
+  | none => none
+
+def isSourceExt (e : Comp) : Bool := e == scssExt || e == sassExt || e == cssExt
+
+/-- visitor.rs:837–839: the URL's file name already ends in `.scss`, `.sass` or `.css`
+    (compared case-sensitively). -/
+def explicitExt (name : Comp) : Option (Comp × Comp) :=
+  match stemExt name with
+  | some (s, e) => if isSourceExt e then some (s, e) else none
+  | none => none
+
+/-- `add_extension` (visitor.rs:53) — `.ext` appended to the whole name; with `d8` the old
+    `Path::with_extension`, which replaces what follows the last dot. -/
+def addExt (af : AsFound) (name ext : Comp) : Comp :=
+  if af.d8 then
+    match stemExt name with
+    | some (s, _) => s ++ '.' :: ext
+    | none => name ++ '.' :: ext
+  else name ++ '.' :: ext
+
+def importOnlySuffixes : List Comp :=
+  [importWord ++ '.' :: sassExt, importWord ++ '.' :: scssExt, importWord ++ '.' :: cssExt]
+def plainSuffixes : List Comp := [sassExt, scssExt, cssExt]
+
+/-- `try_path!` (visitor.rs:819): the path itself, then its `_partial`. -/
+def tryPath (dir : Path) (name : Comp) : List Path := [dir ++ [name], dir ++ [('_' :: name)]]
+
+/-- One same-priority group per documented step: `[n.sass, _n.sass, n.scss, _n.scss]` then
+    `[n.css, _n.css]` (Sass documentation, "Finding the file"; dart-sass `_tryPathWithExtensions`). -/
+def extGroups (af : AsFound) (dir : Path) (name : Comp) : List (List Path) :=
+  [tryPath dir (addExt af name sassExt) ++ tryPath dir (addExt af name scssExt),
+   tryPath dir (addExt af name cssExt)]
+
+/-- `try_path_with_extensions!` (visitor.rs:848): import-only variants (when looked for), then
+    the plain ones.  The order inside and between the groups is the order of the Fs calls. -/
+def withExtensions (af : AsFound) (imp : Bool) (dir : Path) (name : Comp) : List (List Path) :=
+  (if imp then extGroups af dir (name ++ '.' :: importWord) else []) ++ extGroups af dir name
+
+/-- Candidates of one location (the importing file's directory or one load path):
+    `groups` are probed with `is_file` in order; if none exists and `index = some (d, gs)`,
+    `is_dir d` is asked and, if true, `gs` are probed. -/
+structure Loc where
+  groups : List (List Path)
+  index  : Option (Path × List (List Path))
+  deriving Repr, Inhabited
+
+def splitLast : Path → Option (Path × Comp)
+  | [] => none
+  | [c] => some ([], c)
+  | c :: cs => (splitLast cs).map (fun (d, b) => (c :: d, b))
+
+/-- Name of the import-only sibling of an explicit-extension URL (visitor.rs:842). -/
+def importOnlyExplicit (af : AsFound) (stem ext : Comp) : Comp :=
+  if af.d8b then stem ++ '.' :: '.' :: (importWord ++ ext)      -- `q..importscss`
+  else stem ++ '.' :: (importWord ++ '.' :: ext)                 -- `q.import.scss`
+
+/-- What `find_import` probes below `root` for `url` (`imp`: import-only variants wanted). -/
+def locFor (af : AsFound) (imp : Bool) (root url : Path) : Loc :=
+  match splitLast url with
+  | none => ⟨[], none⟩
+  | some (udir, base) =>
+    let dir := root ++ udir
+    match explicitExt base with
+    | some (stem, ext) =>
+      ⟨(if imp then [tryPath dir (importOnlyExplicit af stem ext)] else []) ++ [tryPath dir base], none⟩
+    | none =>
+      ⟨withExtensions af imp dir base,
+       some (dir ++ [base], withExtensions af imp (dir ++ [base]) indexName)⟩
+
+def urlExplicit (url : Path) : Bool :=
+  match splitLast url with
+  | some (_, base) => (explicitExt base).isSome
+  | none => false
+
+/-- Whether the search looks for import-only files: only `@import` does (d9: always). -/
+def wantsImportOnly (af : AsFound) (forImport : Bool) : Bool := forImport || af.d9
+
+/-- The locations in search order: relative to the importing file, then each load path. -/
+def locations (af : AsFound) (importer url : Path) (lps : List Path) (forImport : Bool) : List Loc :=
+  let imp := wantsImportOnly af forImport
+  let rel := locFor af imp importer.dropLast url
+  if af.d10 && urlExplicit url then [rel]
+  else rel :: lps.map (fun lp => locFor af imp lp url)
+
+def Loc.files (l : Loc) : List Path := l.groups.flatten
+def Loc.indexFiles (l : Loc) : List Path :=
+  match l.index with
+  | none => []
+  | some (_, gs) => gs.flatten
+def Loc.filePaths (l : Loc) : List Path := l.files ++ l.indexFiles
+
+def Loc.probes (l : Loc) : List Probe :=
+  l.files.map .isFile ++
+    (match l.index with
+     | none => []
+     | some (d, gs) => .isDir d :: gs.flatten.map .isFile)
+
+/-- Every Fs call the search can make, in order. -/
+def candidates (af : AsFound) (importer url : Path) (lps : List Path) (forImport : Bool) : List Probe :=
+  (locations af importer url lps forImport).flatMap Loc.probes
+
+/-- The files the search can resolve to, in priority order. -/
+def fileCandidates (af : AsFound) (importer url : Path) (lps : List Path) (forImport : Bool) : List Path :=
+  (locations af importer url lps forImport).flatMap Loc.filePaths
+
+/-! ### running the search (result and the Fs calls made) -/
+
+def firstFile (fs : Fs) : List Path → Option Path × List Probe
+  | [] => (none, [])
+  | p :: ps =>
+    if fs.isFile p then (some p, [.isFile p])
+    else
+      let r := firstFile fs ps
+      (r.1, .isFile p :: r.2)
+
+def resolveLoc (fs : Fs) (l : Loc) : Option Path × List Probe :=
+  let r := firstFile fs l.files
+  match r.1 with
+  | some p => (some p, r.2)
+  | none =>
+    match l.index with
+    | none => (none, r.2)
+    | some (d, gs) =>
+      if fs.isDir d then
+        let r2 := firstFile fs gs.flatten
+        (r2.1, r.2 ++ .isDir d :: r2.2)
+      else (none, r.2 ++ [.isDir d])
+
+def resolveLocs (fs : Fs) : List Loc → Option Path × List Probe
+  | [] => (none, [])
+  | l :: ls =>
+    let r := resolveLoc fs l
+    match r.1 with
+    | some p => (some p, r.2)
+    | none =>
+      let r2 := resolveLocs fs ls
+      (r2.1, r.2 ++ r2.2)
+
+/-- `find_import`: the resolved file (if any). -/
+def resolve (af : AsFound) (fs : Fs) (importer url : Path) (lps : List Path) (forImport : Bool) : Option Path :=
+  (resolveLocs fs (locations af importer url lps forImport)).1
+
+/-- The sequence of `is_file` / `is_dir` calls `find_import` makes. -/
+def trace (af : AsFound) (fs : Fs) (importer url : Path) (lps : List Path) (forImport : Bool) : List Probe :=
+  (resolveLocs fs (locations af importer url lps forImport)).2
+
+/-- `InputSyntax::for_path` (options.rs:202): by the lower-cased extension of the file name. -/
+def lowerChar (c : Char) : Char := if 'A' ≤ c ∧ c ≤ 'Z' then Char.ofNat (c.toNat + 32) else c
+def lower (s : List Char) : List Char := s.map lowerChar
+
+def syntaxForName (name : Comp) : Syntax :=
+  match stemExt name with
+  | some (_, e) => if lower e == cssExt then .css else if lower e == sassExt then .sass else .scss
+  | none => .scss
+
+def syntaxFor (p : Path) : Syntax :=
+  match splitLast p with
+  | some (_, name) => syntaxForName name
+  | none => .scss
+
+inductive Call where
+  | probe (p : Probe)
+  | read (p : Path)
+  deriving DecidableEq, Repr, Inhabited
+
+inductive LoadResult where
+  | loaded (p : Path) (syn : Syntax)
+  | cantFind                        -- "Can't find stylesheet to import." at the import site
+  deriving DecidableEq, Repr, Inhabited
+
+/-- `import_like_node` (visitor.rs:892): search, then one read of the result. -/
+def load (af : AsFound) (fs : Fs) (importer url : Path) (lps : List Path) (forImport : Bool) :
+    LoadResult × List Call :=
+  let r := resolveLocs fs (locations af importer url lps forImport)
+  match r.1 with
+  | some p => (.loaded p (syntaxFor p), r.2.map .probe ++ [.read p])
+  | none => (.cantFind, r.2.map .probe)
+
+/-- A chain of nested loads: each step is resolved relative to the file the previous step
+    loaded.  A plain-CSS file cannot load anything further (the chain stops there). -/
+def chain (af : AsFound) (fs : Fs) (lps : List Path) : Path → List (Bool × Path) → List (LoadResult × List Call)
+  | _, [] => []
+  | importer, (fi, url) :: rest =>
+    let r := load af fs importer url lps fi
+    r :: (match r.1 with
+          | .loaded p syn => if syn = .css then [] else chain af fs lps p rest
+          | .cantFind => [])
+
+/-! ### the documented search, group by group (dart-sass `_exactlyOne`) -/
+
+inductive DocResult where
+  | found (p : Path)
+  | ambiguous
+  | none
+  deriving DecidableEq, Repr, Inhabited
+
+def docGroups (fs : Fs) : List (List Path) → DocResult
+  | [] => .none
+  | g :: gs =>
+    match g.filter fs.isFile with
+    | [] => docGroups fs gs
+    | [p] => .found p
+    | _ => .ambiguous
+
+def docLoc (fs : Fs) (l : Loc) : DocResult :=
+  match docGroups fs l.groups with
+  | .none =>
+    match l.index with
+    | none => .none
+    | some (d, gs) => if fs.isDir d then docGroups fs gs else .none
+  | r => r
+
+def docLocs (fs : Fs) : List Loc → DocResult
+  | [] => .none
+  | l :: ls =>
+    match docLoc fs l with
+    | .none => docLocs fs ls
+    | r => r
+
+/-- The search as documented: first location with a match; within it the first non-empty
+    same-priority group, which must contain exactly one existing file. -/
+def docResolve (fs : Fs) (importer url : Path) (lps : List Path) (forImport : Bool) : DocResult :=
+  docLocs fs (locations .spec importer url lps forImport)
+
+/-! ### plain-CSS imports (utils/mod.rs:9, stylesheet.rs:863) -/
+
+def startsWith (s pre : List Char) : Bool := pre.isPrefixOf s
+def endsWith (s suf : List Char) : Bool := suf.reverse.isPrefixOf s.reverse
+
+def dotCss : List Char := ['.', 'c', 's', 's']
+def httpPre : List Char := ['h', 't', 't', 'p', ':', '/', '/']
+def httpsPre : List Char := ['h', 't', 't', 'p', 's', ':', '/', '/']
+def slashSlash : List Char := ['/', '/']
+
+/-- `is_plain_css_import` as written. -/
+def isPlainCssImport (url : List Char) : Bool :=
+  if url.length < 5 then false
+  else
+    let l := lower url
+    endsWith l dotCss || startsWith l httpPre || startsWith l httpsPre || startsWith l slashSlash
+
+/-- The documented predicate on the URL text (Sass documentation "Importing CSS" and dart-sass
+    `isPlainImportUrl`): ends in `.css`, or begins `http://`, `https://` or `//`. -/
+def documentedPlainUrl (url : List Char) : Bool :=
+  let l := lower url
+  endsWith l dotCss || startsWith l httpPre || startsWith l httpsPre || startsWith l slashSlash
+
+inductive ImportKind where
+  | plainCss      -- emitted as a CSS `@import` rule, nothing is loaded
+  | sass          -- resolved and loaded
+  deriving DecidableEq, Repr, Inhabited
+
+/-- `parse_import_argument`: `url(...)` form, or a string that is a plain URL, or any modifiers
+    (media query / `supports(...)`) ⇒ plain CSS import. -/
+def importKind (isUrlFn hasModifiers : Bool) (url : List Char) : ImportKind :=
+  if isUrlFn || isPlainCssImport url || hasModifiers then .plainCss else .sass
+
+/-- Fs calls made for one `@import` argument. -/
+def importCalls (af : AsFound) (fs : Fs) (importer : Path) (lps : List Path)
+    (isUrlFn hasModifiers : Bool) (urlText : List Char) (url : Path) : List Call :=
+  match importKind isUrlFn hasModifiers urlText with
+  | .plainCss => []
+  | .sass => (load af fs importer url lps true).2
+
+/-! ### the per-input property predicate P̂ (used by the theorems and, through the driver, on the
+    implementation's own observation) -/
+
+/-- `res` / `calls` is what was observed for one load.  The property: the outcome is the one the
+    documented search gives, every existence test is on a candidate of that search, and the
+    only read is of the resolved file. -/
+def checkLoad (fs : Fs) (importer url : Path) (lps : List Path) (forImport : Bool)
+    (res : Option Path) (calls : List Call) : Bool :=
+  let cands := candidates .spec importer url lps forImport
+  decide (res = resolve .spec fs importer url lps forImport) &&
+  calls.all (fun c =>
+    match c with
+    | .probe p => cands.contains p
+    | .read p => decide (res = some p)) &&
+  decide ((calls.filter (fun c => match c with | .read _ => true | _ => false)).length
+            = (if res.isSome then 1 else 0))
+
+/-! ### driver entry points -/
+open Grass.Proto
+
+def safeChar (c : Char) : Bool :=
+  c.isAlphanum || c == '.' || c == '_' || c == '-' || c == '/' || c == '~' || c == '+' || c == '@'
+
+def dot : Comp := ['.']
+def dotdot : Comp := ['.', '.']
+
+/-- `a/b/c` → components; `-` is the empty path.  `none` if a character is outside the safe set
+    or a component is empty (a leading empty component = absolute path is allowed with `abs`). -/
+def pathOfStr (abs : Bool) (s : String) : Option Path :=
+  if s == "-" then some []
+  else if !(s.toList.all safeChar) then none
+  else
+    let cs := (s.splitOn "/").map String.toList
+    match cs with
+    | [] => none
+    | c :: rest =>
+      if (if abs then rest.any List.isEmpty else cs.any List.isEmpty) then none
+      else if cs.any (· == dot) then none
+      else if c.isEmpty && rest.isEmpty then none
+      else some cs
+
+def pathStr (p : Path) : String :=
+  if p.isEmpty then "-" else "/".intercalate (p.map String.ofList)
+
+def listOfStr (s : String) : Option (List Path) :=
+  if s == "-" then some [] else (s.splitOn ",").mapM (pathOfStr true)
+
+/-- URLs the model is faithful for: relative, non-empty, last component a normal name. -/
+def urlOk (u : Path) : Bool :=
+  match splitLast u with
+  | some (_, b) => b != dotdot && u.all (fun c => !c.isEmpty && c != dot)
+  | none => false
+
+def afOfStr (s : String) : Option AsFound :=
+  match s.toList with
+  | [a, b, c, d] =>
+    let bit (x : Char) : Option Bool := if x == '1' then some true else if x == '0' then some false else none
+    do let a ← bit a; let b ← bit b; let c ← bit c; let d ← bit d; some ⟨a, b, c, d⟩
+  | _ => none
+
+def isProperPrefix (p f : Path) : Bool := p.isPrefixOf f && p.length < f.length
+
+/-- The Fs of a case: listed files; a directory is a listed directory or a proper prefix of a
+    listed file (the runner's in-memory Fs, runner/src/main.rs `MemFs`). -/
+def fsOf (files dirs : List Path) : Fs :=
+  { isFile := fun p => files.contains p,
+    isDir := fun p => dirs.contains p || files.any (isProperPrefix p) || dirs.any (isProperPrefix p) }
+
+def synStr : Syntax → String
+  | .scss => "scss" | .sass => "sass" | .css => "css"
+
+def probeStr : Probe → String
+  | .isFile p => "f:" ++ pathStr p
+  | .isDir p => "d:" ++ pathStr p
+
+def callStr : Call → String
+  | .probe p => probeStr p
+  | .read p => "r:" ++ pathStr p
+
+def callOfStr (s : String) : Option Call :=
+  match s.splitOn ":" with
+  | [k, p] =>
+    match pathOfStr true p with
+    | some p =>
+      if k == "f" then some (.probe (.isFile p)) else if k == "d" then some (.probe (.isDir p))
+      else if k == "r" then some (.read p) else none
+    | none => none
+  | _ => none
+
+def callsOfStr (s : String) : Option (List Call) :=
+  if s == "-" then some [] else (s.splitOn ",").mapM callOfStr
+
+def callsStr (cs : List Call) : String :=
+  if cs.isEmpty then "-" else ",".intercalate (cs.map callStr)
+
+def resultStr : LoadResult → String
+  | .loaded p syn => "L:" ++ pathStr p ++ ":" ++ synStr syn
+  | .cantFind => "E"
+
+def docStr : DocResult → String
+  | .found p => "found:" ++ pathStr p
+  | .ambiguous => "ambiguous"
+  | .none => "none"
+
+/-- `i:<url>` (`@import`) or `u:<url>` (`@use` / `@forward`). -/
+def stepOfStr (s : String) : Option (Bool × Path) :=
+  match s.splitOn ":" with
+  | [k, u] =>
+    match pathOfStr false u with
+    | some u =>
+      if !urlOk u then none
+      else if k == "i" then some (true, u) else if k == "u" then some (false, u) else none
+    | none => none
+  | _ => none
+
+def stepsOfStr (s : String) : Option (List (Bool × Path)) :=
+  if s == "-" then some [] else (s.splitOn ",").mapM stepOfStr
+
+/-- Per-step facts about the documented search along the chain the *given* model variant takes:
+    documented result, number of existing file candidates (spec), number of spec candidates. -/
+def chainInfo (af : AsFound) (fs : Fs) (lps : List Path) : Path → List (Bool × Path) → List String
+  | _, [] => []
+  | importer, (fi, url) :: rest =>
+    let r := load af fs importer url lps fi
+    let fc := fileCandidates .spec importer url lps fi
+    let here := docStr (docResolve fs importer url lps fi) ++ ":" ++
+      toString (fc.filter fs.isFile).length ++ ":" ++ toString fc.length
+    here :: (match r.1 with
+             | .loaded p syn => if syn = .css then [] else chainInfo af fs lps p rest
+             | .cantFind => [])
+
 def handle : List String → String
+  -- chain <af> <importer> <lps> <files> <dirs> <steps>
+  --   → ok <result>|<calls> ; …  # <doc>:<existing>:<ncands> ; …
+  | ["chain", af, importer, lps, files, dirs, steps] =>
+    match afOfStr af with
+    | none => "bad-op"
+    | some af =>
+      match pathOfStr true importer, listOfStr lps, listOfStr files, listOfStr dirs, stepsOfStr steps with
+      | some importer, some lps, some files, some dirs, some steps =>
+        if importer.isEmpty then "unsupported" else
+        let fs := fsOf files dirs
+        let rs := chain af fs lps importer steps
+        let info := chainInfo af fs lps importer steps
+        "ok " ++ ";".intercalate (rs.map (fun r => resultStr r.1 ++ "|" ++ callsStr r.2)) ++
+          " # " ++ ";".intercalate info
+      | _, _, _, _, _ => "unsupported"
+  -- check <importer> <lps> <files> <dirs> <step> <res: L:<path> | E> <calls>   (P̂ on an observation)
+  | ["check", importer, lps, files, dirs, step, res, calls] =>
+    match pathOfStr true importer, listOfStr lps, listOfStr files, listOfStr dirs, stepOfStr step,
+          callsOfStr calls with
+    | some importer, some lps, some files, some dirs, some (fi, url), some calls =>
+      if importer.isEmpty then "unsupported" else
+      let fs := fsOf files dirs
+      let res? : Option (Option Path) :=
+        if res == "E" then some none
+        else match res.splitOn ":" with
+          | ["L", p] => (pathOfStr true p).map some
+          | _ => none
+      match res? with
+      | none => "bad-op"
+      | some r =>
+        if checkLoad fs importer url lps fi r calls then "ok holds"
+        else
+          let spec := resolve .spec fs importer url lps fi
+          let cands := candidates .spec importer url lps fi
+          let badProbe := calls.find? (fun c => match c with | .probe p => !cands.contains p | .read p => decide (r ≠ some p))
+          "ok fails " ++ (if r ≠ spec then "result" else "calls") ++ " spec=" ++
+            (match spec with | some p => pathStr p | none => "E") ++ " first-bad-call=" ++
+            (match badProbe with | some c => callStr c | none => "-")
+    | _, _, _, _, _, _ => "unsupported"
+  -- cands <af> <importer> <lps> <step>  → the ordered probe list
+  | ["cands", af, importer, lps, step] =>
+    match afOfStr af, pathOfStr true importer, listOfStr lps, stepOfStr step with
+    | some af, some importer, some lps, some (fi, url) =>
+      "ok " ++ callsStr ((candidates af importer url lps fi).map .probe)
+    | _, _, _, _ => "unsupported"
+  -- plain <hex url text> <isUrlFn> <hasModifiers>
+  | ["plain", url, isUrl, mods] =>
+    match hexDecode url, parseBool? isUrl, parseBool? mods with
+    | some u, some isUrl, some mods =>
+      let k := importKind isUrl mods u.toList
+      "ok " ++ (match k with | .plainCss => "plain" | .sass => "sass") ++
+        " code=" ++ boolStr (isPlainCssImport u.toList) ++ " doc=" ++ boolStr (documentedPlainUrl u.toList)
+    | _, _, _ => "bad-op"
+  -- syntax <path>
+  | ["syntax", p] =>
+    match pathOfStr true p with
+    | some p => "ok " ++ synStr (syntaxFor p)
+    | none => "unsupported"
   | _ => "bad-op"
 
 end Grass.Import
